@@ -446,9 +446,14 @@ func c07DumpCache(c *DnsController) string {
 	return strings.Join(l, ";")
 }
 
-func c07NewController(t *testing.T, routing *componentdns.Dns, optimistic bool) *DnsController {
+func c07NewController(t *testing.T, routing *componentdns.Dns, optimistic bool, prefer ...int) *DnsController {
 	log := c07Quiet()
+	ipPrefer := 0
+	if len(prefer) > 0 {
+		ipPrefer = prefer[0]
+	}
 	ctrl, err := NewDnsController(routing, &DnsControllerOption{
+		IpVersionPrefer:     ipPrefer,
 		OptimisticCache:     optimistic,
 		OptimisticCacheTtl:  60,
 		Log:                 log,
@@ -475,6 +480,16 @@ func c07NewController(t *testing.T, routing *componentdns.Dns, optimistic bool) 
 	}
 	return ctrl
 }
+
+// the query types for which cacheKey has a pre-computed string (white-box), with their neighbours
+var c07KeyTypes = func() []uint16 {
+	var l []uint16
+	for t := range qtypeStrCache {
+		l = append(l, t, t+1, t-1)
+	}
+	sort.Slice(l, func(i, j int) bool { return l[i] < l[j] })
+	return l
+}()
 
 type c07Stale struct {
 	key string
@@ -569,6 +584,28 @@ func TestVerifC07Controller(t *testing.T) {
 	dnsForwarderFactory = func(upstream *componentdns.Upstream, dialArg dialArgument, _ *logrus.Logger) (DnsForwarder, error) {
 		stats.Inc("forwarder.created")
 		id, _ := c07Ident(upstream.String())
+		// ... and it includes the ADDRESS ACTUALLY DIALLED (the chooser derives it from upstream.Ip46 as the
+		// production chooser does): an as-is forwarder is named after the resolver it dials, a configured
+		// upstream dialled at another address than its own is marked.
+		if strings.HasPrefix(id, "a") {
+			if t := dialArg.bestTarget.String(); strings.HasPrefix(t, "9.9.9.") && strings.HasSuffix(t, ":53") {
+				id = "a" + strings.TrimSuffix(strings.TrimPrefix(t, "9.9.9."), ":53")
+			} else {
+				id = "a@" + t
+			}
+		} else if strings.HasPrefix(id, "u") {
+			for k, d := range c07Ups {
+				if d.up != nil && fmt.Sprintf("u%d", k) == id {
+					want := d.up.Ip4
+					if !want.IsValid() {
+						want = d.up.Ip6
+					}
+					if dialArg.bestTarget != netip.AddrPortFrom(want, d.up.Port) {
+						id += "@" + dialArg.bestTarget.String()
+					}
+				}
+			}
+		}
 		fb := upstream.Scheme == componentdns.UpstreamScheme_TCP_UDP && dialArg.l4proto == consts.L4ProtoStr_TCP
 		return &c07Fwd{up: id, fallback: fb}, nil // identity bound NOW, not when called
 	}
@@ -585,6 +622,7 @@ func TestVerifC07Controller(t *testing.T) {
 	listen := func() *net.UDPConn {
 		c, err := net.ListenUDP("udp4", &net.UDPAddr{IP: net.IPv4(127, 0, 0, 1), Port: 0})
 		if err != nil {
+			fmt.Println("C07-ENVIRONMENT: loopback UDP sockets are not available (" + err.Error() + "); the nil-writer path cannot be exercised")
 			t.Fatalf("loopback socket: %v", err)
 		}
 		return c
@@ -672,7 +710,17 @@ func TestVerifC07Controller(t *testing.T) {
 		// ONE controller per scenario: its forwarder cache AND its response cache live across the asks
 		// (the model threads the cache through the scenario), so which cached forwarder carries a query
 		// depends on the forwarder cache key, and what an ask stored is what a later ask is served.
-		ctrl := c07NewController(t, routing, optimistic)
+		// ip_version_prefer: answers of the non-preferred family are held back for a moment, never changed
+		ipPrefer := 0
+		pp := 0.08
+		if VThorough() {
+			pp = 0.02
+		}
+		if r.Chance(pp) {
+			ipPrefer = []int{4, 6}[r.Intn(2)]
+			stats.Inc("cfg.ip-version-prefer")
+		}
+		ctrl := c07NewController(t, routing, optimistic, ipPrefer)
 		if optimistic {
 			stats.Inc("cfg.optimistic-cache")
 		}
@@ -699,6 +747,16 @@ func TestVerifC07Controller(t *testing.T) {
 					name = c07RandCase(r, strings.ToLower(name))
 				}
 				stats.Inc("ask.repeats-earlier-question")
+			}
+			switch {
+			case ipPrefer != 0 && r.Chance(0.7):
+				qt = []uint16{dnsmessage.TypeA, dnsmessage.TypeAAAA}[r.Intn(2)]
+			case r.Chance(0.12):
+				// every type with a pre-computed cache-key string, and its neighbours
+				qt = c07KeyTypes[r.Intn(len(c07KeyTypes))]
+				stats.Inc("ask.qtype-from-key-table")
+			case r.Chance(0.04):
+				qt = uint16(r.Intn(65536))
 			}
 			earlier = append(earlier, asked{name, qt})
 			dst := r.Range(1, 2)
@@ -845,6 +903,12 @@ func TestVerifC07Controller(t *testing.T) {
 				realDst:       netip.MustParseAddrPort(fmt.Sprintf("9.9.9.%d:53", dst)),
 				routingResult: &bpfRoutingResult{},
 			}
+			twoQ := !noq && r.Chance(0.04)
+			if twoQ {
+				// QDCOUNT 2: refused (FORMERR) before routing — the second question must not ride along
+				msg.Question = append(msg.Question, dnsmessage.Question{Name: strings.ToLower(c07Domain(r)) + ".", Qtype: qt, Qclass: dnsmessage.ClassINET})
+				stats.Inc("ask.two-questions")
+			}
 			w := &c07Writer{}
 			nilWriter := !noq && r.Chance(0.1) // Handle_ as udp.go calls it: no response writer, reply sent as a packet
 			if nilWriter {
@@ -855,6 +919,9 @@ func TestVerifC07Controller(t *testing.T) {
 			if noq {
 				hq = "noq"
 			}
+			if twoQ {
+				hq = "q2"
+			}
 			op := fmt.Sprintf("ask %d %s %s n:%s %d %s ip:%s cl:%d seed:%s ans:%s", dst, c07B(isResp), hq, name, qt, c07Rx(name),
 				c07B(isIP), qclass, strings.Join(seedToks, ","), strings.Join(ansToks, ","))
 			out := VRecover(func() string {
@@ -862,6 +929,13 @@ func TestVerifC07Controller(t *testing.T) {
 				defer cancel()
 				var err error
 				if nilWriter {
+					// nothing of an earlier ask may be left in the socket
+					for {
+						_ = clientConn.SetReadDeadline(time.Now().Add(time.Millisecond))
+						if _, _, derr := clientConn.ReadFromUDPAddrPort(make([]byte, 65535)); derr != nil {
+							break
+						}
+					}
 					err = ctrl.Handle_(ctx, msg, req)
 					if err == nil {
 						// the reply packet was written to the loopback socket before Handle_ returned
